@@ -756,6 +756,24 @@ def run_cases(payload):
     return {"violations": violations[:1], "stats": dict(tot, edge_draws=edge, prefixes=prefixes, declined_errors=declined_errors), "digests": digests, "sample": sample, "errors": errs[:2]}
 
 
+def digest_replay(payload):
+    """Replay form of a cross-world disagreement: same case, same stream, in this
+    world; compare with the digest recorded in the other world."""
+    res = run_cases(payload)
+    exp = payload["expect"]
+    got = res["digests"].get(str(exp["cid"]))
+    violations = list(res["violations"])
+    if got is not None and got != exp["digest"]:
+        violations.append(
+            {
+                "invariant": "sample-differs-across-hash-worlds",
+                "message": "case %s: digest %s in this world, %s in world %s" % (exp["cid"], got, exp["digest"], exp["world"].get("index")),
+                "fingerprint": "sample-differs-across-hash-worlds",
+            }
+        )
+    return {"violations": violations, "stats": res["stats"], "digests": {}, "sample": None, "errors": []}
+
+
 ###############################################################################
 # runner side
 
@@ -781,7 +799,7 @@ def cross_check(jobs, results):
                 case = [c for c in j0["payload"]["cases"] if str(c["cid"]) == cid][0]
                 out.append(
                     (
-                        dict(j1, payload=dict(j1["payload"], cases=[case], modes=["plain"])),
+                        dict(j1, fn="digest_replay", payload=dict(j1["payload"], cases=[case], modes=["plain"], expect={"cid": cid, "digest": dg, "world": j0["world"]})),
                         {
                             "invariant": "sample-differs-across-hash-worlds",
                             "message": "case %s: the same random stream gave different samples in hash worlds %s and %s" % (cid, j0["world"]["index"], j1["world"]["index"]),
